@@ -71,11 +71,17 @@ where
     pub fn pop_timeout(&self, timeout: Duration) -> Option<T> {
         let mut queue = self.queue.lock().unwrap();
         let mut duration = timeout;
+        let mut expired = false;
         loop {
+            // the queue is looked at after every wake-up, even the last one: the notification
+            // that woke us up may have been for an element that nobody else will take
             match queue.pop_front() {
                 Some(Control::Elem(value)) => return Some(value),
                 Some(Control::Unblock) => return None,
                 None => (),
+            }
+            if expired {
+                return None;
             }
             let now = Instant::now();
             let (_queue, result) = self.condvar.wait_timeout(queue, timeout).unwrap();
@@ -86,11 +92,8 @@ where
             } else {
                 Duration::from_millis(0)
             };
-            if result.timed_out()
-                || (duration.as_secs() == 0 && duration.subsec_nanos() < 1_000_000)
-            {
-                return None;
-            }
+            expired = result.timed_out()
+                || (duration.as_secs() == 0 && duration.subsec_nanos() < 1_000_000);
         }
     }
 }
